@@ -152,7 +152,7 @@ def chop (d : Nat) (C : List Word) : List Nat :=
 /-- the level loop: ℓ = 1, 2, …: if ℓ = L+1, finish with SEQ; else M_ℓ = PAR(M_{ℓ-1}); stop when one chaining
     value (1024 bits) is left.  Every PAR level shrinks a message of more than one block, so the number of
     iterations is bounded by the byte length; `fuel` = that bound (the default `[]` is never produced:
-    `Proofs.C17.digest_length`). -/
+    `Proofs.C17.spec_root_is_one_chaining_value`). -/
 def levels (P : Params) : Nat → Nat → List Nat → Nat → List Word
   | 0, _, _, _ => []
   | fuel + 1, level, M, m =>
